@@ -199,3 +199,11 @@ Qed.
 Lemma sched_safe_inhabited : validate w_good_small = Ok [] /\ sched_safe w_good_small = true
                              /\ sched_safe_unchecked w_good_small = true.
 Proof. vm_compute. repeat split; reflexivity. Qed.
+
+(* ---- C11 ------------------------------------------------------------------------------- *)
+From PFDL.Check Require Import TypingProofs CheckProofsC11.
+Lemma not_wf_accepted : ~ C11_wf_accepted.
+Proof.
+  intro H. destruct wf_rejected_string_equality as [Hwf Hv].
+  apply wf_dec_correct in Hwf. rewrite (H _ Hwf) in Hv. discriminate.
+Qed.
